@@ -245,14 +245,20 @@ func (resultList) Extract(containerWriter, bool, reflect.Value) {
 }
 
 func (rl resultList) ExtractList(cw containerWriter, decorated bool, values []reflect.Value) error {
+	// Look at the returned errors first: values returned next to a non-nil
+	// error must not reach the container.
+	for i, v := range values {
+		if rl.resultIndexes[i] >= 0 {
+			continue
+		}
+		if err, _ := v.Interface().(error); err != nil {
+			return err
+		}
+	}
+
 	for i, v := range values {
 		if resultIdx := rl.resultIndexes[i]; resultIdx >= 0 {
 			rl.Results[resultIdx].Extract(cw, decorated, v)
-			continue
-		}
-
-		if err, _ := v.Interface().(error); err != nil {
-			return err
 		}
 	}
 
